@@ -1047,7 +1047,8 @@ def conforming(draw, node, hashable=False, size=None):
         raise ValueError(node)
     if k == 'type':
         sub = node[1]
-        pool = ['int', 'str', 'VBase', 'VDerived', 'VOther', 'bool']
+        pool = ['int', 'str', 'VBase', 'VDerived', 'VOther', 'bool', 'float', 'complex', 'bytes']
+        pool += sorted(c for c in CLASSES if c not in pool and isinstance(CLASSES[c], type))
         ok = [c for c in pool if _is_type_member(sub, CLASSES[c])]
         return ['class', draw(st.sampled_from(ok))]
     if k == 'tv':
